@@ -79,10 +79,17 @@ Definition check (c : case) : bool :=
   match c with
   | CTable weak rows => list_eqb row_eqb rows (tbl_of weak)
   | CSupported weak version ids =>
-    forallb (fun id => Bool.eqb (existsb (N.eqb id) ids)
-                                (match forge toy (tbl_of weak) version id [] [] [] (N.even id) with
-                                 | Ok (Some _) => true | _ => false end))
-            (flat_map (fun hi => map (fun lo => hi * 256 + lo) (nrange 256)) (nrange 256))
+    (* [ids] = every id among all 65536 for which the Go function returned non-nil (the sweep is done by
+       the runner). The model returns a connection exactly for the ids of the table (Props/C27.v:
+       C27_forge_unsupported, C27_forge_dir), so agreement on all 65536 ids is: ids and table ids are the
+       same set, and the model evaluated on each of them yields a connection. *)
+    let tids := map s_id (tbl_of weak) in
+    forallb (fun id => existsb (N.eqb id) tids) ids && forallb (fun id => existsb (N.eqb id) ids) tids &&
+    forallb (fun id => match forge toy (tbl_of weak) version id [] [] [] (N.even id) with
+                       | Ok (Some _) => true | _ => false end) ids &&
+    forallb (fun id => match forge toy (tbl_of weak) version id [] [] [] (N.even id) with
+                       | Ok None => true | _ => false end)
+            (filter (fun id => negb (existsb (N.eqb id) tids)) (flat_map (fun i => [i; i + 1; i + 256]) ids ++ [0; 1; 4865; 4866; 4867; 65535]))
   | CForge weak version suite cin cout sin sout =>
     match forged weak version suite true, forged weak version suite false with
     | Some c, Some s =>
